@@ -59,7 +59,7 @@ Print Assumptions C19_client_sockets_balanced.
    further packet, timer or timeout: a quiet oracle cs2) the whole pool makes at most [cost s] further steps, where
    [cost] is read off the state at the instant of cancellation (sum over the goroutines of the longest path to their
    return along done-branches), and at most (goroutines alive) x 2 x (size of the program text) in closed form.
-   No wait on a timer is part of such a path except Sleep (the 50 ms reply delay, the limiter's 20 s: finding F11). *)
+   No wait on a timer is part of such a path except Sleep (the server's 50 ms reply delay); since the repair of F11 the limiter's 20 s pause is a select on the context too. *)
 Theorem C19_shutdown_bound : forall p, lok p = true -> forall cs1 cs2,
   let s := exec (run (init p) cs1) CCancel in
   forallb quiet_choice cs2 = true -> nsteps s cs2 <= cost s /\ nsteps s cs2 <= length (procs s) * (2 * size p).
